@@ -265,6 +265,15 @@ def auth_block_rules(prog, chk, pid):
             kv = unsnap(v.args[1])
             k, val = unsnap(kv.args[0][0]), unsnap(kv.args[0][1])
             ok0 = k.op == "attr" and k.args[1] == "tag" and unsnap(k.args[0]) is val
+        elif v.op == "ref":
+            # the same mapping filled by a loop: a dictionary created in the constructor whose only writes are  d[block.tag] = block
+            sets_ = [e for e in r0.events if e.kind == "setitem" and unsnap(e.d["base"]) is v]
+            other_ = [e for e in r0.events if e.kind in ("mutate", "delitem") and unsnap(e.d.get("obj", e.d.get("base"))) is v]
+            def _keyed(e):
+                k_, val_ = unsnap(e.d["index"]), unsnap(e.d["value"])
+                return k_.op == "attr" and k_.args[1] == "tag" and unsnap(k_.args[0]) is val_
+            o_ = (r0.state.heap if r0.state is not None else {}).get(v.args[0])
+            ok0 = bool(sets_) and not other_ and all(_keyed(e) for e in sets_) and o_ is not None and o_.kind == "dict"
     chk.require(not bad and ok0, P("blocks-keyed-by-tag"), cls.qualname, "auth_blocks written only as {block.tag: block}", bad[0] if bad else "%s:%d" % (fi0.file, fi0.lineno), "no other writer of the mapping exists", "auth_blocks has another writer / is not built as {block.tag: block}")
     # ---- derive_auth_blocks_from_config
     fi = prog.method(BEC2 + ".Bec2File", "derive_auth_blocks_from_config")
